@@ -31,6 +31,12 @@ import (
 // VerifDir is the root of the verification tree.
 var VerifDir = "/verif"
 
+// RepoDir is the checkout under check (/repo unless VERIF_REPO is set by ./check for a scratch run).
+var RepoDir = envOr("VERIF_REPO", "/repo")
+
+// OutDir receives evidence and replay files: VerifDir, or VERIF_OUT for scratch runs against another checkout.
+var OutDir = envOr("VERIF_OUT", VerifDir)
+
 // Violation describes one property violation found by a worker.
 type Violation struct {
 	Key  string          `json:"key"`
@@ -839,7 +845,7 @@ func doParent(spec Spec, tier string, seed int64, b time.Duration, nworkers int)
 			return 2
 		}
 		sum := sha256.Sum256(append([]byte(key+"\x00"), v.Case...))
-		dir := filepath.Join(VerifDir, "replays", spec.ID)
+		dir := filepath.Join(OutDir, "replays", spec.ID)
 		os.MkdirAll(dir, 0755)
 		path := filepath.Join(dir, hex.EncodeToString(sum[:8])+".json")
 		data, _ := json.MarshalIndent(v, "", " ")
@@ -888,8 +894,8 @@ func doParent(spec Spec, tier string, seed int64, b time.Duration, nworkers int)
 		"violations":  nViol,
 	}
 	data, _ := json.MarshalIndent(ev, "", " ")
-	os.MkdirAll(filepath.Join(VerifDir, "evidence"), 0755)
-	if err := os.WriteFile(filepath.Join(VerifDir, "evidence", spec.ID+".json"), data, 0644); err != nil {
+	os.MkdirAll(filepath.Join(OutDir, "evidence"), 0755)
+	if err := os.WriteFile(filepath.Join(OutDir, "evidence", spec.ID+".json"), data, 0644); err != nil {
 		fmt.Fprintln(os.Stderr, err)
 		return 2
 	}
